@@ -4,7 +4,7 @@
 (* (harness/c04.py): unit_cell_atoms rows, unit_cell_connectivity edges,    *)
 (* unit_cell_molecules and symmetry_unique_molecules projected to the grid. *)
 (***************************************************************************)
-EXTENDS Molecules, TLC, Json, IOUtils
+EXTENDS Molecules, Reexpress, TLC, Json, IOUtils
 
 CONSTANT NBlocks
 ASSUME TLCSet(1, JsonDeserialize(IOEnv.TRACE_FILE).traces)     \* parsed once, not once per worker
@@ -49,6 +49,7 @@ Verdict(t) ==
       kf == IF SizesDiffer(t) THEN " KF=C04-different-sizes" ELSE ""
   IN
   IF ~(N % 12 = 0 /\ N <= 48 /\ Len(t.asym) > 0 /\ HasIdentity(CodeSet(t.ops))) THEN "OOD shape" ELSE
+  IF ~SwitchedFromOK(t) THEN "OOD switch-proposal" ELSE
   IF ~MetricCompatible(t.ops, t.gram) THEN "OOD metric" ELSE
   IF ~ChemistryOK(t.asym, t.mols, t.bonds) THEN "OOD chemistry" ELSE
   IF ~GeneralPositions(tab) \/ ~OrbitsDisjointT(tab) THEN "OOD special-position" ELSE
